@@ -94,4 +94,47 @@ theorem discPath_order_independent (G : MG) (hS : Simple G) (hW : WFG G)
   rw [discPath_found_iff G hS hW nb bnb hnb hbnb u a c maxLen hlen hcirc,
       discPath_found_iff G hS hW nb' bnb' hnb' hbnb' u a c maxLen hlen hcirc]
 
+theorem disc_no_limit {G : MG} (hW : WFG G) {nb bnb : Nat → List Nat}
+    (hnb : ∀ x y, y ∈ nb x ↔ adj G x y = true) (hbnb : ∀ x y, y ∈ bnb x ↔ hB G x y = true)
+    (u a c : Nat) (ha : a ∈ G.nodes) {maxLen : Nat} (hlen : G.nodes.length < maxLen) :
+    (loop (discIter G nb bnb) (discCls G c) false maxLen (discInit u a c)).limit = false := by
+  refine loop_no_limit_aux (U := G.nodes) (discIter G nb bnb) false (discIter_nodes hW hnb hbnb) maxLen _ rfl ?_
+  have : G.nodes.countP (fun x => decide (x ∉ (discInit u a c).explored)) < G.nodes.countP (fun _ => true) := by
+    refine Closure.countP_lt' _ _ (by intro _ _; rfl) G.nodes a ha rfl ?_
+    simp [discInit]
+  rw [List.countP_true] at this
+  simp only [meas, discInit, List.length_cons, List.length_nil] at this ⊢
+  omega
+
+/-- **Soundness of `discriminating_path`, graphs below the pop limit** (no side condition on the
+    returned list): `found = True` with `a -> c` (no circle at a) always comes with a discriminating
+    path. -/
+theorem discPath_sound_nolimit (G : MG) (hS : Simple G) (hW : WFG G) (nb bnb : Nat → List Nat)
+    (hnb : ∀ x y, y ∈ nb x ↔ adj G x y = true) (hbnb : ∀ x y, y ∈ bnb x ↔ hB G x y = true)
+    (u a c maxLen : Nat) (hlen : G.nodes.length < maxLen) (p ex : List Nat)
+    (h : discPath G nb bnb u a c maxLen = .ok (true, p, ex)) (hcirc : hC G c a = false) :
+    DiscPath G u a c p := by
+  apply discPath_sound G hS nb bnb u a c maxLen p ex h ?_ hcirc
+  intro hp; subst hp
+  unfold discPath at h
+  cases he : discEntry G u a c with
+  | false => rw [he] at h; simp at h
+  | true =>
+    rw [he] at h
+    simp only [Bool.not_true, Bool.false_eq_true, if_false] at h
+    have hac : hD G a c = true := by simp only [discEntry, Bool.and_eq_true] at he; exact he.1.2
+    have ha : a ∈ G.nodes := (hW a c (by unfold adj; rw [hac]; simp)).1
+    have hlim := disc_no_limit hW hnb hbnb u a c ha hlen
+    have hi := loop_inv (disc_hpush G u a c) (disc_hfin G u a c) (discIter G nb bnb) false maxLen _
+      (discInit_inv hS he)
+    generalize loop (discIter G nb bnb) (discCls G c) false maxLen (discInit u a c) = s at h hlim hi
+    have hf : s.found = true := by
+      unfold discFinish at h
+      rw [if_neg (by simp [hlim])] at h
+      cases hfd : s.found with
+      | true => rfl
+      | false => rw [hfd] at h; simp at h
+    obtain ⟨p', hne, hp'⟩ := discFinish_found hi hf hlim
+    rw [hp'] at h; injection h with h; injection h with _ h2; injection h2 with h2 _; exact hne h2
+
 end C18
